@@ -1,1 +1,901 @@
-(* placeholder: proofs are being written *)
+(* C01: every strictly well-formed formula AST parses, to exactly the atoms it denotes. *)
+From Coq Require Import List ZArith NArith Bool Arith String Lia.
+From CE Require Import Str Comp Formula FormulaSpec.
+Import ListNotations.
+
+Local Open Scope nat_scope.
+
+(* ------------------------------------------------------------------ *)
+(* strings: byte lengths, indices, slices                              *)
+(* ------------------------------------------------------------------ *)
+
+Lemma width_pos : forall c, 1 <= width c.
+Proof. intro c. unfold width. destruct (c <? 128)%N; [lia|]. destruct (c <? 2048)%N; [lia|]. destruct (c <? 65536)%N; lia. Qed.
+
+Lemma blen_app : forall p q, blen (p ++ q) = blen p + blen q.
+Proof. induction p as [|c p IH]; intro q; cbn [blen app]; [reflexivity|]. rewrite IH. lia. Qed.
+
+Lemma indices_app : forall p q i, indices (p ++ q) i = indices p i ++ indices q (i + blen p).
+Proof.
+  induction p as [|c p IH]; intros q i.
+  - cbn [indices blen app]. replace (i + 0) with i by lia. reflexivity.
+  - cbn [indices blen app]. rewrite IH. replace (i + width c + blen p) with (i + (width c + blen p)) by lia. reflexivity.
+Qed.
+
+Lemma drop_bytes_app : forall p q, drop_bytes (p ++ q) (blen p) = Some q.
+Proof.
+  induction p as [|c p IH]; intro q; cbn [blen app].
+  - destruct q; reflexivity.
+  - pose proof (width_pos c) as Hw.
+    cbn [drop_bytes].
+    destruct (width c + blen p) as [|m] eqn:E; [lia|].
+    rewrite <- E.
+    replace (width c <=? width c + blen p) with true by (symmetry; apply Nat.leb_le; lia).
+    replace (width c + blen p - width c) with (blen p) by lia.
+    apply IH.
+Qed.
+
+Lemma take_bytes_app : forall m q, take_bytes (m ++ q) (blen m) = Some m.
+Proof.
+  induction m as [|c m IH]; intro q; cbn [blen app].
+  - destruct q; reflexivity.
+  - pose proof (width_pos c) as Hw.
+    cbn [take_bytes].
+    destruct (width c + blen m) as [|k] eqn:E; [lia|].
+    rewrite <- E.
+    replace (width c <=? width c + blen m) with true by (symmetry; apply Nat.leb_le; lia).
+    replace (width c + blen m - width c) with (blen m) by lia.
+    rewrite IH. reflexivity.
+Qed.
+
+Lemma slice_eq : forall s p m q a b,
+  s = p ++ m ++ q -> a = blen p -> b = a + blen m -> slice s a b = Some m.
+Proof.
+  intros s p m q a b -> -> ->. unfold slice.
+  replace (blen p <=? blen p + blen m) with true by (symmetry; apply Nat.leb_le; lia).
+  rewrite drop_bytes_app.
+  replace (blen p + blen m - blen p) with (blen m) by lia.
+  apply take_bytes_app.
+Qed.
+
+(* ------------------------------------------------------------------ *)
+(* the accumulator                                                     *)
+(* ------------------------------------------------------------------ *)
+
+Lemma str_eqb_spec : forall a b, reflect (a = b) (str_eqb a b).
+Proof. intros a b. unfold str_eqb. destruct (list_eq_dec N.eq_dec a b); constructor; assumption. Qed.
+
+Lemma key_eqb_spec : forall a b : key, reflect (a = b) (key_eqb a b).
+Proof.
+  intros [a1 a2] [b1 b2]. unfold key_eqb. cbn [fst snd].
+  destruct (str_eqb_spec a1 b1) as [E1|E1]; cbn [andb].
+  - destruct (N.eqb_spec a2 b2) as [E2|E2]; constructor; congruence.
+  - constructor; congruence.
+Qed.
+
+Lemma key_eqb_refl : forall k, key_eqb k k = true.
+Proof. intro k. destruct (key_eqb_spec k k); congruence. Qed.
+
+Lemma key_eqb_sym : forall a b, key_eqb a b = key_eqb b a.
+Proof. intros a b. destruct (key_eqb_spec a b), (key_eqb_spec b a); congruence. Qed.
+
+Local Open Scope Z_scope.
+
+Fixpoint tot (k : key) (l : ents) : Z :=
+  match l with [] => 0 | (k', v) :: r => (if key_eqb k k' then v else 0) + tot k r end.
+
+Fixpoint nd (l : ents) : Prop :=
+  match l with [] => True | (k, _) :: r => e_mem k r = false /\ nd r end.
+
+Lemma e_get_set : forall k k' v l, e_get k (e_set k' v l) = if key_eqb k k' then v else e_get k l.
+Proof.
+  intros k k' v l. induction l as [|[k0 v0] r IH]; cbn [e_set e_get].
+  - reflexivity.
+  - destruct (key_eqb_spec k' k0) as [E|E]; cbn [e_get].
+    + subst k0. destruct (key_eqb k k'); reflexivity.
+    + rewrite IH. destruct (key_eqb_spec k k0) as [E0|E0]; [|reflexivity].
+      subst k0. destruct (key_eqb_spec k k'); congruence.
+Qed.
+
+Lemma e_mem_set : forall k k' v l, e_mem k (e_set k' v l) = key_eqb k k' || e_mem k l.
+Proof.
+  intros k k' v l. induction l as [|[k0 v0] r IH]; cbn [e_set e_mem].
+  - reflexivity.
+  - destruct (key_eqb_spec k' k0) as [E|E]; cbn [e_mem].
+    + subst k0. destruct (key_eqb k k'); reflexivity.
+    + rewrite IH. destruct (key_eqb k k0), (key_eqb k k'); reflexivity.
+Qed.
+
+Lemma nd_set : forall k v l, nd l -> nd (e_set k v l).
+Proof.
+  intros k v l. induction l as [|[k0 v0] r IH]; cbn [e_set nd]; intro H.
+  - split; [reflexivity|exact I].
+  - destruct H as [H1 H2]. destruct (key_eqb_spec k k0) as [E|E]; cbn [nd].
+    + split; assumption.
+    + split; [|apply IH; assumption].
+      rewrite e_mem_set, H1. destruct (key_eqb_spec k0 k); [congruence|reflexivity].
+Qed.
+
+Lemma e_get_inc : forall k k' n l, e_get k (e_inc k' n l) = e_get k l + (if key_eqb k k' then n else 0).
+Proof.
+  intros k k' n l. unfold e_inc. rewrite e_get_set.
+  destruct (key_eqb_spec k k') as [E|E]; [subst; reflexivity|lia].
+Qed.
+
+Lemma e_mem_inc : forall k k' n l, e_mem k (e_inc k' n l) = key_eqb k k' || e_mem k l.
+Proof. intros. unfold e_inc. apply e_mem_set. Qed.
+
+Lemma nd_inc : forall k n l, nd l -> nd (e_inc k n l).
+Proof. intros. unfold e_inc. apply nd_set. assumption. Qed.
+
+Lemma tot_notmem : forall k l, e_mem k l = false -> tot k l = 0.
+Proof.
+  intros k l. induction l as [|[k0 v0] r IH]; cbn [e_mem tot]; intro H; [reflexivity|].
+  apply orb_false_iff in H. destruct H as [H1 H2]. rewrite H1, IH by assumption. reflexivity.
+Qed.
+
+Lemma e_get_tot : forall k l, nd l -> e_get k l = tot k l.
+Proof.
+  intros k l. induction l as [|[k0 v0] r IH]; cbn [nd e_get tot]; intro H; [reflexivity|].
+  destruct H as [H1 H2]. destruct (key_eqb_spec k k0) as [E|E].
+  - subst k0. rewrite tot_notmem by assumption. lia.
+  - rewrite IH by assumption. lia.
+Qed.
+
+Lemma e_get_add : forall k b a, e_get k (e_add a b) = e_get k a + tot k b.
+Proof.
+  intros k b. unfold e_add. induction b as [|[k0 v0] r IH]; intro a; cbn [fold_left tot fst snd].
+  - lia.
+  - rewrite IH, e_get_inc. lia.
+Qed.
+
+Lemma e_mem_add : forall k b a, e_mem k (e_add a b) = e_mem k a || e_mem k b.
+Proof.
+  intros k b. unfold e_add. induction b as [|[k0 v0] r IH]; intro a; cbn [fold_left e_mem fst snd].
+  - rewrite orb_false_r. reflexivity.
+  - rewrite IH, e_mem_inc. destruct (key_eqb k k0), (e_mem k a); reflexivity.
+Qed.
+
+Lemma nd_add : forall b a, nd a -> nd (e_add a b).
+Proof.
+  intros b. unfold e_add. induction b as [|[k0 v0] r IH]; intros a H; cbn [fold_left]; [assumption|].
+  apply IH. apply nd_inc. assumption.
+Qed.
+
+Lemma tot_mul : forall k g n, tot k (e_mul g n) = tot k g * n.
+Proof.
+  intros k g n. unfold e_mul. induction g as [|[k0 v0] r IH]; cbn [map tot fst snd]; [reflexivity|].
+  rewrite IH. destruct (key_eqb k k0); lia.
+Qed.
+
+Lemma e_mem_mul : forall k g n, e_mem k (e_mul g n) = e_mem k g.
+Proof.
+  intros k g n. unfold e_mul. induction g as [|[k0 v0] r IH]; cbn [map e_mem fst snd]; [reflexivity|].
+  rewrite IH. reflexivity.
+Qed.
+
+Local Close Scope Z_scope.
+
+(* ------------------------------------------------------------------ *)
+(* characters                                                          *)
+(* ------------------------------------------------------------------ *)
+
+Ltac ncases :=
+  repeat match goal with
+  | |- context[N.leb ?a ?b] => destruct (N.leb_spec a b)
+  | |- context[N.ltb ?a ?b] => destruct (N.ltb_spec a b)
+  | |- context[N.eqb ?a ?b] => destruct (N.eqb_spec a b)
+  end; cbn [andb orb negb]; try reflexivity; try discriminate; try lia.
+
+Lemma upper_range : forall ch, is_upper ch = true -> (65 <= ch <= 90)%N.
+Proof. intros ch H. unfold is_upper in H. apply andb_true_iff in H. rewrite !N.leb_le in H. exact H. Qed.
+Lemma digit_range : forall ch, is_digit ch = true -> (48 <= ch <= 57)%N.
+Proof. intros ch H. unfold is_digit in H. apply andb_true_iff in H. rewrite !N.leb_le in H. exact H. Qed.
+
+Lemma wLB : width LB = 1. Proof. reflexivity. Qed.
+Lemma wRB : width RB = 1. Proof. reflexivity. Qed.
+Lemma wLP : width LP = 1. Proof. reflexivity. Qed.
+Lemma wRP : width RP = 1. Proof. reflexivity. Qed.
+
+Lemma upper_alpha : forall ch, is_upper ch = true -> is_alpha ch = true.
+Proof. intros ch H. unfold is_alpha. rewrite H. reflexivity. Qed.
+Lemma upper_not_LP : forall ch, is_upper ch = true -> (ch =? LP)%N = false.
+Proof. intros ch H. apply upper_range in H. unfold LP. ncases. Qed.
+Lemma upper_not_num : forall un ch, is_upper ch = true -> is_numeric un ch = false.
+Proof. intros un ch H. apply upper_range in H. unfold is_numeric, is_digit. ncases. Qed.
+Lemma LP_not_upper : is_upper LP = false. Proof. reflexivity. Qed.
+Lemma LP_not_alpha : is_alpha LP = false. Proof. reflexivity. Qed.
+Lemma LP_not_num : forall un, is_numeric un LP = false. Proof. reflexivity. Qed.
+
+Lemma digit_num : forall un ch, is_digit ch = true -> is_numeric un ch = true.
+Proof. intros un ch H. unfold is_numeric. rewrite H. apply digit_range in H. ncases. Qed.
+Lemma digit_not_alpha : forall ch, is_digit ch = true -> is_alpha ch = false.
+Proof. intros ch H. apply digit_range in H. unfold is_alpha, is_upper, is_lower. ncases. Qed.
+Lemma digit_not_RB : forall ch, is_digit ch = true -> (ch =? RB)%N = false.
+Proof. intros ch H. apply digit_range in H. unfold RB. ncases. Qed.
+Lemma digit_not_LP : forall ch, is_digit ch = true -> (ch =? LP)%N = false.
+Proof. intros ch H. apply digit_range in H. unfold LP. ncases. Qed.
+Lemma digit_not_RP : forall ch, is_digit ch = true -> (ch =? RP)%N = false.
+Proof. intros ch H. apply digit_range in H. unfold RP. ncases. Qed.
+
+Lemma start_not_num : forall un ch, is_upper ch = true \/ ch = LP -> is_numeric un ch = false.
+Proof. intros un ch [H| ->]; [apply upper_not_num; assumption|reflexivity]. Qed.
+
+Lemma parse_uint_val : forall b d n, parse_uint b d = Some n -> digits_val d 0 = Some n.
+Proof.
+  intros b d n H. unfold parse_uint in H. destruct d as [|c r]; [discriminate|].
+  destruct (digits_val (c :: r) 0) as [v|]; [|discriminate].
+  destruct (v <=? b)%N; congruence.
+Qed.
+
+(* ------------------------------------------------------------------ *)
+(* the specification side, unfolded                                    *)
+(* ------------------------------------------------------------------ *)
+
+Definition iso_text (i : option str) : str := match i with Some d => [LB] ++ d ++ [RB] | None => [] end.
+
+Lemma render_cons : forall it f, render (it :: f) = render_item it ++ render f.
+Proof. reflexivity. Qed.
+Lemma render_item_El : forall s i c, render_item (El s i c) = s ++ iso_text i ++ opt_text c.
+Proof. reflexivity. Qed.
+Lemma render_item_Gr : forall b c, render_item (Gr b c) = [LP] ++ render b ++ [RP] ++ opt_text c.
+Proof.
+  intros b c. cbn [render_item]. do 2 f_equal.
+  induction b as [|x r IH]; [reflexivity|]. rewrite render_cons, IH. reflexivity.
+Qed.
+
+Lemma denote_cons : forall it f k, denote (it :: f) k = (denote_item it k + denote f k)%Z.
+Proof. reflexivity. Qed.
+Lemma denote_item_Gr : forall b c k, denote_item (Gr b c) k = (cnt_val c * denote b k)%Z.
+Proof.
+  intros b c k. cbn [denote_item]. f_equal.
+Qed.
+
+Lemma named_cons : forall it f k, named (it :: f) k = named_item it k || named f k.
+Proof. reflexivity. Qed.
+Lemma named_item_Gr : forall b c k, named_item (Gr b c) k = named b k.
+Proof.
+  intros b c k. cbn [named_item].
+  induction b as [|x r IH]; [reflexivity|]. rewrite named_cons, IH. reflexivity.
+Qed.
+
+Lemma wf_item_Gr : forall un he hi l b c,
+  wf_item un he hi l (Gr b c) = cnt_ok c && negb (Nat.eqb (List.length b) 0) && forallb (wf_item un he hi l) b.
+Proof.
+  intros. cbn [wf_item]. f_equal.
+Qed.
+
+Fixpoint item_ind' (P : item -> Prop)
+  (HEl : forall s i c, P (El s i c))
+  (HGr : forall b c, Forall P b -> P (Gr b c)) (it : item) : P it :=
+  match it with
+  | El s i c => HEl s i c
+  | Gr b c => HGr b c ((fix go (l : list item) : Forall P l :=
+                          match l with [] => Forall_nil _ | x :: r => Forall_cons _ (item_ind' P HEl HGr x) (go r) end) b)
+  end.
+
+(* ------------------------------------------------------------------ *)
+(* the machine                                                         *)
+(* ------------------------------------------------------------------ *)
+
+Ltac proj := cbn [es ee is_ ie cs ce pstack gs ge gcs gce fstate
+                  set_es set_ee set_is set_ie set_cs set_ce set_ps set_gs set_ge set_gcs set_gce set_st] in *.
+
+Section FC.
+Variable uni_numeric : char -> bool.
+Variable has_elem : str -> bool.
+Variable has_iso : str -> N -> bool.
+
+Notation isnum := (is_numeric uni_numeric).
+Notation wfi := (wf_item uni_numeric has_elem has_iso false).
+Notation wff := (wf uni_numeric has_elem has_iso false).
+
+Definition Good (f : list item) (g : ents) : Prop :=
+  nd g /\ (forall k, e_get k g = denote f k) /\ (forall k, e_mem k g = true -> named f k = true).
+
+Section WithRec.
+Variable prec : str -> fres ents.
+Notation stepR := (step uni_numeric has_elem has_iso prec).
+Notation finishR := (finish has_elem has_iso prec).
+Notation runR := (run uni_numeric has_elem has_iso prec).
+
+Fixpoint steps (s : str) (acc : ents) (c : cfg) (l : list (nat * char)) : fres (ents * cfg) :=
+  match l with
+  | [] => FOk (acc, c)
+  | (i, ch) :: t => match stepR s acc c i ch with FOk (a, c') => steps s a c' t | FErr e => FErr e | FPanic => FPanic end
+  end.
+
+Lemma run_steps : forall l1 l2 s acc c a' c',
+  steps s acc c l1 = FOk (a', c') -> runR s acc c (l1 ++ l2) = runR s a' c' l2.
+Proof.
+  induction l1 as [|[i ch] t IH]; intros l2 s acc c a' c' H; cbn [steps app run] in *.
+  - inversion H. reflexivity.
+  - destruct (stepR s acc c i ch) as [[a1 c1]| |]; try discriminate. cbn [bind]. apply IH. assumption.
+Qed.
+
+Lemma steps_app : forall l1 l2 s acc c a' c',
+  steps s acc c l1 = FOk (a', c') -> steps s acc c (l1 ++ l2) = steps s a' c' l2.
+Proof.
+  induction l1 as [|[i ch] t IH]; intros l2 s acc c a' c' H; cbn [steps app] in *.
+  - inversion H. reflexivity.
+  - destruct (stepR s acc c i ch) as [[a1 c1]| |]; try discriminate. apply IH. assumption.
+Qed.
+
+Lemma steps_stay : forall (p : char -> bool) s acc c,
+  (forall i ch, p ch = true -> stepR s acc c i ch = FOk (acc, c)) ->
+  forall t off, forallb p t = true -> steps s acc c (indices t off) = FOk (acc, c).
+Proof.
+  intros p s acc c Hp. induction t as [|x r IH]; intros off H; cbn [indices steps forallb] in *; [reflexivity|].
+  apply andb_true_iff in H. destruct H as [H1 H2]. rewrite (Hp _ _ H1). apply IH. assumption.
+Qed.
+
+(* absorbing steps *)
+Lemma step_element_tail : forall s acc c i x, fstate c = Element ->
+  negb (sym_stop uni_numeric x) && negb (x =? RP)%N = true -> stepR s acc c i x = FOk (acc, c).
+Proof.
+  intros s acc c i x Hst H. unfold sym_stop in H.
+  apply andb_true_iff in H. destruct H as [H _]. apply negb_true_iff in H.
+  apply orb_false_iff in H. destruct H as [H HLP]. apply orb_false_iff in H. destruct H as [H HLB].
+  apply orb_false_iff in H. destruct H as [Hup Hnum]. change (isnum x = false) in Hnum.
+  unfold step. rewrite Hst. rewrite Hup, Hnum, HLB, HLP. destruct (is_alpha x); reflexivity.
+Qed.
+
+Lemma step_isotope_digit : forall s acc c i x, fstate c = Isotope -> is_digit x = true -> stepR s acc c i x = FOk (acc, c).
+Proof.
+  intros s acc c i x Hst H. unfold step. rewrite Hst, (digit_not_RB _ H), (digit_num _ _ H). reflexivity.
+Qed.
+Lemma step_count_digit : forall s acc c i x, fstate c = Count -> is_digit x = true -> stepR s acc c i x = FOk (acc, c).
+Proof.
+  intros s acc c i x Hst H. unfold step. rewrite Hst, (digit_num _ _ H). reflexivity.
+Qed.
+Lemma step_gcount_digit : forall s acc c i x, fstate c = GroupCount -> is_digit x = true -> stepR s acc c i x = FOk (acc, c).
+Proof.
+  intros s acc c i x Hst H. unfold step. rewrite Hst, (digit_num _ _ H). reflexivity.
+Qed.
+
+(* transitions inside an item *)
+Lemma step_element_digit : forall s acc c i x, fstate c = Element -> is_digit x = true ->
+  stepR s acc c i x = FOk (acc, set_st (set_cs (set_ee c i) i) Count).
+Proof.
+  intros s acc c i x Hst H. unfold step. rewrite Hst, (digit_not_alpha _ H), (digit_num _ _ H). reflexivity.
+Qed.
+Lemma step_element_LB : forall s acc c i, fstate c = Element ->
+  stepR s acc c i LB = FOk (acc, set_st (set_is (set_ee c i) (i + 1)) Isotope).
+Proof. intros s acc c i Hst. unfold step. rewrite Hst. reflexivity. Qed.
+Lemma step_isotope_RB : forall s acc c i, fstate c = Isotope ->
+  stepR s acc c i RB = FOk (acc, set_st (set_ie c i) IsotopeToCount).
+Proof. intros s acc c i Hst. unfold step. rewrite Hst. reflexivity. Qed.
+Lemma step_itc_digit : forall s acc c i x, fstate c = IsotopeToCount -> is_digit x = true ->
+  stepR s acc c i x = FOk (acc, set_st (set_cs c i) Count).
+Proof. intros s acc c i x Hst H. unfold step. rewrite Hst, (digit_num _ _ H). reflexivity. Qed.
+Lemma step_gtgc_digit : forall s acc c i x, fstate c = GroupToGroupCount -> is_digit x = true ->
+  stepR s acc c i x = FOk (acc, set_st (set_gcs c i) GroupCount).
+Proof. intros s acc c i x Hst H. unfold step. rewrite Hst, (digit_num _ _ H). reflexivity. Qed.
+
+(* an item has just been started at byte offset off by character ch *)
+Definition Started (c : cfg) (off : nat) (ch : char) : Prop :=
+  is_ c = ie c /\
+  ((is_upper ch = true /\ fstate c = Element /\ es c = off /\ pstack c = 0%Z)
+   \/ (ch = LP /\ fstate c = Group /\ gs c = off + 1 /\ pstack c = 1%Z)).
+
+(* a complete item is pending in c; it ends at byte offset e; flushing it applies F to the accumulator *)
+Definition Pend (s : str) (c : cfg) (e : nat) (F : ents -> ents) : Prop :=
+  forall acc,
+    (forall ch, is_upper ch = true \/ ch = LP ->
+       exists c', stepR s acc c e ch = FOk (F acc, c') /\ Started c' e ch)
+    /\ (e = blen s -> finishR s acc c = FOk (F acc)).
+
+Lemma pend_element : forall s c e sym,
+  fstate c = Element -> pstack c = 0%Z -> is_ c = ie c ->
+  slice s (es c) e = Some sym -> has_elem sym = true ->
+  Pend s c e (e_inc (sym, 0%N) 1).
+Proof.
+  intros s c e sym Hst Hps Hiso Hsl Hel acc.
+  destruct c as [es0 ee0 is0 ie0 cs0 ce0 ps0 gs0 ge0 gcs0 gce0 st0]. proj. subst. split.
+  - intros ch Hch. unfold step. proj. destruct Hch as [Hu| ->].
+    + rewrite (upper_alpha _ Hu), Hu. unfold get_elem, sl. proj. rewrite Hsl. cbn [bind]. rewrite Hel.
+      eexists. split; [reflexivity|]. unfold Started. proj. split; [reflexivity|]. left. auto.
+    + rewrite LP_not_alpha, LP_not_num. change ((LP =? LB)%N) with false. change ((LP =? LP)%N) with true.
+      cbv iota. unfold get_elem, sl. proj. rewrite Hsl. cbn [bind]. rewrite Hel.
+      eexists. split; [reflexivity|]. unfold Started. proj. split; [reflexivity|]. right. auto.
+  - intros ->. unfold finish. proj. unfold get_elem, sl. proj. rewrite Hsl. cbn [bind]. rewrite Hel. reflexivity.
+Qed.
+
+Ltac red1 := cbn [bind of_opt]; cbv beta iota zeta.
+
+Lemma pend_itc : forall s c e sym di n,
+  fstate c = IsotopeToCount -> pstack c = 0%Z ->
+  slice s (es c) (ee c) = Some sym -> has_elem sym = true ->
+  slice s (is_ c) (ie c) = Some di -> parse_u16 di = Some n -> has_iso sym n = true ->
+  Pend s c e (e_inc (sym, n) 1).
+Proof.
+  intros s c e sym di n Hst Hps Hsl Hel Hsli Hpi Hhi acc.
+  destruct c as [es0 ee0 is0 ie0 cs0 ce0 ps0 gs0 ge0 gcs0 gce0 st0]. proj. subst. split.
+  - intros ch Hch. unfold step. proj. rewrite (start_not_num uni_numeric _ Hch).
+    unfold get_elem, sl. proj. rewrite Hsl. red1. rewrite Hel. red1.
+    unfold parse_isotope_slice, sl. proj. rewrite Hsli. red1. rewrite Hpi. red1.
+    unfold check_iso. rewrite Hhi, orb_true_r. red1.
+    unfold start_item. destruct Hch as [Hu| ->].
+    + rewrite (upper_not_LP _ Hu), Hu. red1.
+      eexists. split; [reflexivity|]. unfold Started. proj. split; [reflexivity|]. left. auto.
+    + change ((LP =? LP)%N) with true. red1.
+      eexists. split; [reflexivity|]. unfold Started. proj. split; [reflexivity|]. right. auto.
+  - intros ->. unfold finish. proj. unfold get_elem, sl. proj. rewrite Hsl. red1. rewrite Hel. red1.
+    unfold parse_isotope_slice, sl. proj. rewrite Hsli. red1. rewrite Hpi. red1.
+    unfold check_iso. rewrite Hhi, orb_true_r. red1. reflexivity.
+Qed.
+
+Definition IsoInfo (s : str) (c : cfg) (sym : str) (n : N) : Prop :=
+  (ie c = is_ c /\ n = 0%N)
+  \/ (ie c <> is_ c /\ exists di, slice s (is_ c) (ie c) = Some di /\ parse_u16 di = Some n /\ has_iso sym n = true).
+
+Lemma pend_count : forall s c e sym d n ison,
+  fstate c = Count -> pstack c = 0%Z ->
+  slice s (es c) (ee c) = Some sym -> has_elem sym = true ->
+  slice s (cs c) e = Some d -> parse_i32 d = Some n ->
+  IsoInfo s c sym ison ->
+  Pend s c e (e_inc (sym, ison) (Z.of_N n)).
+Proof.
+  intros s c e sym d n ison Hst Hps Hsl Hel Hsld Hpd Hiso acc.
+  destruct c as [es0 ee0 is0 ie0 cs0 ce0 ps0 gs0 ge0 gcs0 gce0 st0]. unfold IsoInfo in Hiso. proj. subst.
+  assert (Hisoev : forall c', is_ c' = is0 -> ie c' = ie0 ->
+            exists n', (if Nat.eqb (ie c') (is_ c') then FOk 0%N else parse_isotope_slice s c') = FOk n'
+                       /\ check_iso has_iso sym n' = FOk ison).
+  { intros c' E1 E2. rewrite E1, E2. destruct Hiso as [[E ->]|[E [di [Hsli [Hpi Hhi]]]]].
+    - subst. rewrite Nat.eqb_refl. exists 0%N. split; reflexivity.
+    - apply Nat.eqb_neq in E. rewrite E. exists ison. unfold parse_isotope_slice, sl. rewrite E1, E2, Hsli. red1.
+      rewrite Hpi. split; [reflexivity|]. unfold check_iso. rewrite Hhi, orb_true_r. reflexivity. }
+  split.
+  - intros ch Hch. unfold step. proj. rewrite (start_not_num uni_numeric _ Hch). cbn [negb].
+    unfold take_count, sl. proj. rewrite Hsld. red1. rewrite Hpd. red1.
+    match goal with |- context[if Nat.eqb (ie ?c') (is_ ?c') then _ else _] =>
+      destruct (Hisoev c' eq_refl eq_refl) as [n' [Hn1 Hn2]] end.
+    rewrite Hn1. red1.
+    unfold get_elem, sl. proj. rewrite Hsl. red1. rewrite Hel. red1. rewrite Hn2. red1.
+    unfold start_item. destruct Hch as [Hu| ->].
+    + rewrite (upper_not_LP _ Hu), Hu. red1.
+      eexists. split; [reflexivity|]. unfold Started. proj. split; [reflexivity|]. left. auto.
+    + change ((LP =? LP)%N) with true. red1.
+      eexists. split; [reflexivity|]. unfold Started. proj. split; [reflexivity|]. right. auto.
+  - intros ->. unfold finish. proj.
+    unfold take_count, sl. proj. rewrite Hsld. red1. rewrite Hpd. red1.
+    match goal with |- context[if Nat.eqb (ie ?c') (is_ ?c') then _ else _] =>
+      destruct (Hisoev c' eq_refl eq_refl) as [n' [Hn1 Hn2]] end.
+    rewrite Hn1. red1.
+    unfold get_elem, sl. proj. rewrite Hsl. red1. rewrite Hel. red1. rewrite Hn2. red1. reflexivity.
+Qed.
+
+Lemma pend_gtgc : forall s c e body g,
+  fstate c = GroupToGroupCount -> pstack c = 0%Z -> is_ c = ie c ->
+  slice s (gs c) (ge c) = Some body -> prec body = FOk g ->
+  Pend s c e (fun acc => e_add acc g).
+Proof.
+  intros s c e body g Hst Hps Hiso Hsl Hg acc.
+  destruct c as [es0 ee0 is0 ie0 cs0 ce0 ps0 gs0 ge0 gcs0 gce0 st0]. proj. subst. split.
+  - intros ch Hch. unfold step. proj. rewrite (start_not_num uni_numeric _ Hch). cbn [negb].
+    unfold take_group, sl. proj. rewrite Hsl. red1. rewrite Hg. red1.
+    unfold start_item. destruct Hch as [Hu| ->].
+    + rewrite (upper_not_LP _ Hu), Hu. red1.
+      eexists. split; [reflexivity|]. unfold Started. proj. split; [reflexivity|]. left. auto.
+    + change ((LP =? LP)%N) with true. red1.
+      eexists. split; [reflexivity|]. unfold Started. proj. split; [reflexivity|]. right. auto.
+  - intros ->. unfold finish. proj. unfold take_group, sl. proj. rewrite Hsl. red1. rewrite Hg. red1. reflexivity.
+Qed.
+
+Lemma pend_gcount : forall s c e body g d n,
+  fstate c = GroupCount -> pstack c = 0%Z -> is_ c = ie c ->
+  slice s (gs c) (ge c) = Some body -> prec body = FOk g ->
+  slice s (gcs c) e = Some d -> parse_i32 d = Some n ->
+  Pend s c e (fun acc => e_add acc (e_mul g (Z.of_N n))).
+Proof.
+  intros s c e body g d n Hst Hps Hiso Hsl Hg Hsld Hpd acc.
+  destruct c as [es0 ee0 is0 ie0 cs0 ce0 ps0 gs0 ge0 gcs0 gce0 st0]. proj. subst. split.
+  - intros ch Hch. unfold step. proj. rewrite (start_not_num uni_numeric _ Hch). cbn [negb].
+    unfold take_group, sl. proj. rewrite Hsl. red1. rewrite Hg. red1.
+    unfold take_gcount, sl. proj. rewrite Hsld. red1. rewrite Hpd. red1.
+    unfold start_item. destruct Hch as [Hu| ->].
+    + rewrite (upper_not_LP _ Hu), Hu. red1.
+      eexists. split; [reflexivity|]. unfold Started. proj. split; [reflexivity|]. left. auto.
+    + change ((LP =? LP)%N) with true. red1.
+      eexists. split; [reflexivity|]. unfold Started. proj. split; [reflexivity|]. right. auto.
+  - intros ->. unfold finish. proj. unfold take_group, sl. proj. rewrite Hsl. red1. rewrite Hg. red1.
+    unfold take_gcount, sl. proj. rewrite Hsld. red1. rewrite Hpd. red1. reflexivity.
+Qed.
+
+(* ---- scanning a group body ---- *)
+Definition GScan (t : str) : Prop :=
+  forall s acc c off, fstate c = Group -> (1 <= pstack c)%Z -> steps s acc c (indices t off) = FOk (acc, c).
+
+Definition np (t : str) : bool := forallb (fun x => negb (x =? LP)%N && negb (x =? RP)%N) t.
+
+Lemma gscan_np : forall t, np t = true -> GScan t.
+Proof.
+  intros t H s acc c off Hst Hps.
+  apply steps_stay with (p := fun x => negb (x =? LP)%N && negb (x =? RP)%N); [|exact H].
+  intros i ch Hch. apply andb_true_iff in Hch. destruct Hch as [H1 H2].
+  apply negb_true_iff in H1. apply negb_true_iff in H2.
+  unfold step. rewrite Hst, H1, H2. reflexivity.
+Qed.
+
+Lemma gscan_app : forall a b, GScan a -> GScan b -> GScan (a ++ b).
+Proof.
+  intros a b Ha Hb s acc c off Hst Hps. rewrite indices_app.
+  rewrite (steps_app _ _ _ _ _ _ _ (Ha s acc c off Hst Hps)). apply Hb; assumption.
+Qed.
+
+Lemma gscan_paren : forall t, GScan t -> GScan ([LP] ++ t ++ [RP]).
+Proof.
+  intros t Ht s acc c off Hst Hps. cbn [app indices steps].
+  assert (E1 : stepR s acc c off LP = FOk (acc, set_ps c (pstack c + 1)%Z)).
+  { unfold step. rewrite Hst. reflexivity. }
+  rewrite E1. rewrite indices_app.
+  assert (Hst1 : fstate (set_ps c (pstack c + 1)%Z) = Group) by (proj; assumption).
+  assert (Hps1 : (1 <= pstack (set_ps c (pstack c + 1)%Z))%Z) by (proj; lia).
+  rewrite (steps_app _ _ _ _ _ _ _ (Ht s acc _ _ Hst1 Hps1)).
+  cbn [indices steps]. unfold step. rewrite Hst1. change ((RP =? RP)%N) with true. cbv iota. proj.
+  destruct (Z.eqb_spec (pstack c + 1 - 1) 0) as [E|E]; [lia|].
+  do 2 f_equal. destruct c as [es0 ee0 is0 ie0 cs0 ce0 ps0 gs0 ge0 gcs0 gce0 st0]. unfold set_ps. proj. f_equal. lia.
+Qed.
+
+Lemma np_app : forall a b, np (a ++ b) = np a && np b.
+Proof. intros. unfold np. apply forallb_app. Qed.
+
+Lemma np_digits : forall d, forallb is_digit d = true -> np d = true.
+Proof.
+  intros d H. unfold np. rewrite forallb_forall in *. intros x Hx. specialize (H x Hx).
+  rewrite (digit_not_LP _ H), (digit_not_RP _ H). reflexivity.
+Qed.
+
+Lemma digits_ok_inv : forall d, digits_ok d = true -> exists d0 dt, d = d0 :: dt /\ is_digit d0 = true /\ forallb is_digit dt = true.
+Proof.
+  intros d H. unfold digits_ok in H. apply andb_true_iff in H. destruct H as [H1 H2].
+  destruct d as [|d0 dt]; [discriminate|]. cbn [forallb] in H2. apply andb_true_iff in H2.
+  exists d0, dt. tauto.
+Qed.
+
+Lemma digits_ok_all : forall d, digits_ok d = true -> forallb is_digit d = true.
+Proof. intros d H. unfold digits_ok in H. apply andb_true_iff in H. tauto. Qed.
+
+Lemma cnt_ok_inv : forall cn, cnt_ok cn = true ->
+  match cn with Some d => digits_ok d = true /\ exists n, parse_i32 d = Some n /\ cnt_val cn = Z.of_N n | None => True end.
+Proof.
+  intros [d|] H; [|exact I]. cbn [cnt_ok] in H. apply andb_true_iff in H. destruct H as [H1 H2].
+  split; [assumption|]. destruct (parse_i32 d) as [n|] eqn:E; [|discriminate].
+  exists n. split; [reflexivity|]. unfold cnt_val. rewrite (parse_uint_val _ _ _ E). reflexivity.
+Qed.
+
+Lemma np_cnt : forall cn, cnt_ok cn = true -> np (opt_text cn) = true.
+Proof.
+  intros [d|] H; [|reflexivity]. apply cnt_ok_inv in H. destruct H as [H _].
+  cbn [opt_text]. apply np_digits, digits_ok_all. assumption.
+Qed.
+
+Lemma upper_not_RP : forall ch, is_upper ch = true -> (ch =? RP)%N = false.
+Proof. intros ch H. apply upper_range in H. unfold RP. ncases. Qed.
+
+Lemma np_El : forall sy i cn, wfi (El sy i cn) = true -> np (render_item (El sy i cn)) = true.
+Proof.
+  intros sy i cn H. cbn [wf_item] in H.
+  apply andb_true_iff in H. destruct H as [H Hio]. apply andb_true_iff in H. destruct H as [H Hcn].
+  apply andb_true_iff in H. destruct H as [Hsh _].
+  rewrite render_item_El, !np_app. rewrite (np_cnt _ Hcn), andb_true_r. apply andb_true_iff. split.
+  - unfold sym_shape in Hsh. destruct sy as [|ch t]; [discriminate|]. apply andb_true_iff in Hsh. destruct Hsh as [Hu Ht].
+    unfold np. cbn [forallb]. rewrite (upper_not_LP _ Hu), (upper_not_RP _ Hu). cbn [negb andb].
+    rewrite forallb_forall in *. intros x Hx. specialize (Ht x Hx).
+    apply andb_true_iff in Ht. destruct Ht as [Ht1 Ht2]. rewrite Ht2, andb_true_r.
+    unfold sym_stop in Ht1. apply negb_true_iff in Ht1. apply orb_false_iff in Ht1. destruct Ht1 as [_ Ht1].
+    rewrite Ht1. reflexivity.
+  - destruct i as [di|]; [|reflexivity]. cbn [iso_ok] in Hio. apply andb_true_iff in Hio. destruct Hio as [Hd _].
+    cbn [iso_text]. rewrite !np_app. rewrite (np_digits _ (digits_ok_all _ Hd)). reflexivity.
+Qed.
+
+Lemma gscan_items : forall b, Forall (fun it => wfi it = true -> GScan (render_item it)) b ->
+  forallb wfi b = true -> GScan (render b).
+Proof.
+  induction b as [|x r IH]; intros HF Hwf.
+  - apply gscan_np. reflexivity.
+  - inversion HF as [|? ? Hx Hr]; subst. cbn [forallb] in Hwf. apply andb_true_iff in Hwf. destruct Hwf as [W1 W2].
+    rewrite render_cons. apply gscan_app; [apply Hx; assumption|apply IH; assumption].
+Qed.
+
+Lemma gscan_item : forall it, wfi it = true -> GScan (render_item it).
+Proof.
+  induction it as [sy i cn|b cn IH] using item_ind'; intro Hwf.
+  - apply gscan_np, np_El. assumption.
+  - rewrite wf_item_Gr in Hwf. apply andb_true_iff in Hwf. destruct Hwf as [Hwf Hb].
+    apply andb_true_iff in Hwf. destruct Hwf as [Hcn _].
+    rewrite render_item_Gr.
+    change ([LP] ++ render b ++ [RP] ++ opt_text cn) with ([LP] ++ render b ++ ([RP] ++ opt_text cn)).
+    replace ([LP] ++ render b ++ [RP] ++ opt_text cn) with (([LP] ++ render b ++ [RP]) ++ opt_text cn)
+      by (rewrite <- !app_assoc; reflexivity).
+    apply gscan_app.
+    + apply gscan_paren. apply gscan_items; assumption.
+    + apply gscan_np, np_cnt. assumption.
+Qed.
+
+Lemma gscan_render : forall b, forallb wfi b = true -> GScan (render b).
+Proof.
+  intros b H. apply gscan_items; [|assumption]. apply Forall_forall. intros x _. apply gscan_item.
+Qed.
+
+(* ---- scanning one item ---- *)
+Ltac str_norm := rewrite ?app_nil_r; repeat (progress (rewrite <- ?app_assoc; cbn [app])).
+Ltac blen_tac := repeat rewrite blen_app; cbn [blen]; rewrite ?wLB, ?wRB, ?wLP, ?wRP; lia.
+
+Lemma blen_pos : forall c t, 1 <= blen (c :: t).
+Proof. intros c t. cbn [blen]. pose proof (width_pos c). lia. Qed.
+
+Lemma scan_El : forall s pre ch t i cn rest c acc,
+  s = pre ++ render_item (El (ch :: t) i cn) ++ rest ->
+  wfi (El (ch :: t) i cn) = true ->
+  fstate c = Element -> es c = blen pre -> pstack c = 0%Z -> is_ c = ie c ->
+  exists cP, steps s acc c (indices (t ++ iso_text i ++ opt_text cn) (blen pre + width ch)) = FOk (acc, cP)
+     /\ Pend s cP (blen pre + blen (render_item (El (ch :: t) i cn))) (e_inc (ch :: t, iso_val i) (cnt_val cn)).
+Proof.
+  intros s pre ch t i cn rest c acc Hs Hwf Hst Hes Hps Hiso.
+  cbn [wf_item] in Hwf.
+  apply andb_true_iff in Hwf. destruct Hwf as [Hwf Hio]. apply andb_true_iff in Hwf. destruct Hwf as [Hwf Hcn].
+  apply andb_true_iff in Hwf. destruct Hwf as [Hsh Hel].
+  unfold sym_shape in Hsh. apply andb_true_iff in Hsh. destruct Hsh as [Hup Htl].
+  rewrite render_item_El in *.
+  assert (Habs : steps s acc c (indices t (blen pre + width ch)) = FOk (acc, c)).
+  { apply steps_stay with (p := fun x => negb (sym_stop uni_numeric x) && negb (x =? RP)%N); [|exact Htl].
+    intros; apply step_element_tail; assumption. }
+  apply cnt_ok_inv in Hcn.
+  destruct i as [di|]; destruct cn as [d|]; cbn [iso_text opt_text iso_val] in *.
+  - (* isotope and count *)
+    destruct Hcn as [Hdok [n [Hpn Hcv]]]. rewrite Hcv.
+    apply digits_ok_inv in Hdok. destruct Hdok as [d0 [dt [-> [Hd0 Hdt]]]].
+    cbn [iso_ok] in Hio. apply andb_true_iff in Hio. destruct Hio as [Hdi Hpi].
+    destruct (parse_u16 di) as [ni|] eqn:Epi; [|discriminate].
+    replace (match digits_val di 0 with Some n0 => n0 | None => 0%N end) with ni
+      by (rewrite (parse_uint_val _ _ _ Epi); reflexivity).
+    pose proof (digits_ok_all _ Hdi) as Hdall.
+    apply digits_ok_inv in Hdi. destruct Hdi as [i0 [it [Edi _]]].
+    eexists. split.
+    + str_norm. rewrite indices_app. rewrite (steps_app _ _ _ _ _ _ _ Habs).
+      cbn [app indices steps]. rewrite step_element_LB by assumption. rewrite wLB.
+      rewrite indices_app.
+      erewrite steps_app; [| apply steps_stay with (p := is_digit); [|exact Hdall];
+                             intros; apply step_isotope_digit; [reflexivity|assumption] ].
+      cbn [app indices steps]. rewrite step_isotope_RB by reflexivity.
+      rewrite step_itc_digit by (reflexivity || assumption).
+      apply steps_stay with (p := is_digit); [|exact Hdt].
+      intros; apply step_count_digit; [reflexivity|assumption].
+    + apply pend_count with (d := d0 :: dt); proj; try assumption; try reflexivity.
+      * rewrite Hes. apply (slice_eq s pre (ch :: t) (([LB] ++ di ++ [RB]) ++ (d0 :: dt) ++ rest));
+          [subst s; str_norm; reflexivity | blen_tac | blen_tac].
+      * apply (slice_eq s (pre ++ (ch :: t) ++ [LB] ++ di ++ [RB]) (d0 :: dt) rest);
+          [subst s; str_norm; reflexivity | blen_tac | blen_tac].
+      * right. proj. split.
+        { subst di. pose proof (blen_pos i0 it). lia. }
+        exists di. split; [|split; assumption].
+        apply (slice_eq s (pre ++ (ch :: t) ++ [LB]) di ([RB] ++ (d0 :: dt) ++ rest));
+          [subst s; str_norm; reflexivity | blen_tac | blen_tac].
+  - (* isotope, no count *)
+    cbn [cnt_val].
+    cbn [iso_ok] in Hio. apply andb_true_iff in Hio. destruct Hio as [Hdi Hpi].
+    destruct (parse_u16 di) as [ni|] eqn:Epi; [|discriminate].
+    replace (match digits_val di 0 with Some n0 => n0 | None => 0%N end) with ni
+      by (rewrite (parse_uint_val _ _ _ Epi); reflexivity).
+    pose proof (digits_ok_all _ Hdi) as Hdall.
+    eexists. split.
+    + str_norm. rewrite indices_app. rewrite (steps_app _ _ _ _ _ _ _ Habs).
+      cbn [app indices steps]. rewrite step_element_LB by assumption. rewrite wLB.
+      rewrite indices_app.
+      erewrite steps_app; [| apply steps_stay with (p := is_digit); [|exact Hdall];
+                             intros; apply step_isotope_digit; [reflexivity|assumption] ].
+      cbn [app indices steps]. rewrite step_isotope_RB by reflexivity. reflexivity.
+    + apply pend_itc with (di := di); proj; try assumption; try reflexivity.
+      * rewrite Hes. apply (slice_eq s pre (ch :: t) (([LB] ++ di ++ [RB]) ++ rest));
+          [subst s; str_norm; reflexivity | blen_tac | blen_tac].
+      * apply (slice_eq s (pre ++ (ch :: t) ++ [LB]) di ([RB] ++ rest));
+          [subst s; str_norm; reflexivity | blen_tac | blen_tac].
+  - (* count, no isotope *)
+    destruct Hcn as [Hdok [n [Hpn Hcv]]]. rewrite Hcv.
+    apply digits_ok_inv in Hdok. destruct Hdok as [d0 [dt [-> [Hd0 Hdt]]]].
+    eexists. split.
+    + str_norm. rewrite indices_app. rewrite (steps_app _ _ _ _ _ _ _ Habs).
+      cbn [app indices steps]. rewrite step_element_digit by assumption.
+      apply steps_stay with (p := is_digit); [|exact Hdt].
+      intros; apply step_count_digit; [reflexivity|assumption].
+    + apply pend_count with (d := d0 :: dt); proj; try assumption; try reflexivity.
+      * rewrite Hes. apply (slice_eq s pre (ch :: t) ((d0 :: dt) ++ rest));
+          [subst s; str_norm; reflexivity | blen_tac | blen_tac].
+      * apply (slice_eq s (pre ++ (ch :: t)) (d0 :: dt) rest);
+          [subst s; str_norm; reflexivity | blen_tac | blen_tac].
+      * left. proj. split; [symmetry; assumption|reflexivity].
+  - (* bare symbol *)
+    cbn [cnt_val]. exists c. split.
+    + rewrite !app_nil_r. exact Habs.
+    + apply pend_element; try assumption.
+      rewrite Hes. apply (slice_eq s pre (ch :: t) rest);
+          [subst s; str_norm; reflexivity | blen_tac | blen_tac].
+Qed.
+
+Lemma e_mul_1 : forall g, e_mul g 1 = g.
+Proof.
+  intro g. unfold e_mul. induction g as [|[k v] r IH]; cbn [map fst snd]; [reflexivity|].
+  rewrite IH, Z.mul_1_r. reflexivity.
+Qed.
+
+Lemma scan_Gr : forall s pre b cn rest c acc g,
+  s = pre ++ render_item (Gr b cn) ++ rest ->
+  wfi (Gr b cn) = true ->
+  fstate c = Group -> gs c = blen pre + 1 -> pstack c = 1%Z -> is_ c = ie c ->
+  prec (render b) = FOk g ->
+  exists cP, steps s acc c (indices (render b ++ [RP] ++ opt_text cn) (blen pre + width LP)) = FOk (acc, cP)
+     /\ Pend s cP (blen pre + blen (render_item (Gr b cn))) (fun a => e_add a (e_mul g (cnt_val cn))).
+Proof.
+  intros s pre b cn rest c acc g Hs Hwf Hst Hgs Hps Hiso Hg.
+  rewrite wf_item_Gr in Hwf. apply andb_true_iff in Hwf. destruct Hwf as [Hwf Hb].
+  apply andb_true_iff in Hwf. destruct Hwf as [Hcn _].
+  rewrite render_item_Gr in *.
+  assert (Habs : steps s acc c (indices (render b) (blen pre + width LP)) = FOk (acc, c)).
+  { apply gscan_render; [assumption|assumption|lia]. }
+  assert (ERP : forall i, stepR s acc c i RP = FOk (acc, set_st (set_ge (set_ps c 0%Z) i) GroupToGroupCount)).
+  { intro i. unfold step. rewrite Hst. change ((RP =? RP)%N) with true. cbv iota. proj. rewrite Hps. reflexivity. }
+  apply cnt_ok_inv in Hcn.
+  destruct cn as [d|]; cbn [opt_text] in *.
+  - destruct Hcn as [Hdok [n [Hpn Hcv]]]. rewrite Hcv.
+    apply digits_ok_inv in Hdok. destruct Hdok as [d0 [dt [-> [Hd0 Hdt]]]].
+    eexists. split.
+    + str_norm. rewrite indices_app. rewrite (steps_app _ _ _ _ _ _ _ Habs).
+      cbn [app indices steps]. rewrite ERP.
+      rewrite step_gtgc_digit by (reflexivity || assumption).
+      apply steps_stay with (p := is_digit); [|exact Hdt].
+      intros; apply step_gcount_digit; [reflexivity|assumption].
+    + apply pend_gcount with (body := render b) (d := d0 :: dt); proj; try assumption; try reflexivity.
+      * rewrite Hgs. apply (slice_eq s (pre ++ [LP]) (render b) ([RP] ++ (d0 :: dt) ++ rest));
+          [subst s; str_norm; reflexivity | blen_tac | blen_tac].
+      * apply (slice_eq s (pre ++ [LP] ++ render b ++ [RP]) (d0 :: dt) rest);
+          [subst s; str_norm; reflexivity | blen_tac | blen_tac].
+  - cbn [cnt_val]. rewrite e_mul_1.
+    eexists. split.
+    + str_norm. rewrite indices_app. rewrite (steps_app _ _ _ _ _ _ _ Habs).
+      cbn [app indices steps]. rewrite ERP. reflexivity.
+    + apply pend_gtgc with (body := render b); proj; try assumption; try reflexivity.
+      rewrite Hgs. apply (slice_eq s (pre ++ [LP]) (render b) ([RP] ++ rest));
+          [subst s; str_norm; reflexivity | blen_tac | blen_tac].
+Qed.
+
+(* what flushing an item must do to the accumulator *)
+Definition RelF (it : item) (F : ents -> ents) : Prop :=
+  forall acc, nd acc ->
+    nd (F acc) /\ (forall k, e_get k (F acc) = e_get k acc + denote_item it k)%Z
+    /\ (forall k, e_mem k (F acc) = true -> e_mem k acc = true \/ named_item it k = true).
+
+Definition Hrec (s : str) : Prop :=
+  forall b, wff b = true -> List.length (render b) + 2 <= List.length s ->
+    exists g, prec (render b) = FOk g /\ Good b g.
+
+Lemma wf_head : forall it, wfi it = true ->
+  exists ch tl, render_item it = ch :: tl /\ (is_upper ch = true \/ ch = LP).
+Proof.
+  intros [sy i cn|b cn] H.
+  - cbn [wf_item] in H. apply andb_true_iff in H. destruct H as [H _]. apply andb_true_iff in H. destruct H as [H _].
+    apply andb_true_iff in H. destruct H as [H _]. unfold sym_shape in H.
+    destruct sy as [|ch t]; [discriminate|]. apply andb_true_iff in H. destruct H as [H _].
+    rewrite render_item_El. exists ch, (t ++ iso_text i ++ opt_text cn). split; [reflexivity|left; assumption].
+  - rewrite render_item_Gr. exists LP, (render b ++ [RP] ++ opt_text cn). split; [reflexivity|right; reflexivity].
+Qed.
+
+Lemma item_scan : forall s pre it rest ch tl c acc,
+  s = pre ++ render_item it ++ rest -> wfi it = true -> render_item it = ch :: tl ->
+  Started c (blen pre) ch -> Hrec s ->
+  exists cP F, steps s acc c (indices tl (blen pre + width ch)) = FOk (acc, cP)
+     /\ Pend s cP (blen pre + blen (render_item it)) F /\ RelF it F.
+Proof.
+  intros s pre it rest ch tl c acc Hs Hwf Hr [Hiso Hstart] Hrc.
+  destruct it as [sy i cn|b cn].
+  - assert (Hsy : exists t, sy = ch :: t /\ is_upper ch = true).
+    { pose proof Hwf as H. cbn [wf_item] in H. apply andb_true_iff in H. destruct H as [H _]. apply andb_true_iff in H. destruct H as [H _].
+      apply andb_true_iff in H. destruct H as [H _]. unfold sym_shape in H.
+      destruct sy as [|ch0 t]; [discriminate|]. apply andb_true_iff in H. destruct H as [H _].
+      rewrite render_item_El in Hr. cbn [app] in Hr. inversion Hr; subst. exists t. split; [reflexivity|assumption]. }
+    destruct Hsy as [t [-> Hup]].
+    assert (Etl : tl = t ++ iso_text i ++ opt_text cn).
+    { rewrite render_item_El in Hr. cbn [app] in Hr. inversion Hr. reflexivity. }
+    destruct Hstart as [[_ [Hst [Hes Hps]]]|[E _]]; [|subst ch; discriminate].
+    destruct (scan_El s pre ch t i cn rest c acc Hs Hwf Hst Hes Hps Hiso) as [cP [H1 H2]].
+    exists cP, (e_inc (ch :: t, iso_val i) (cnt_val cn)). split; [rewrite Etl; exact H1|]. split; [exact H2|].
+    intros a Ha. split; [apply nd_inc; assumption|]. split.
+    + intro k. rewrite e_get_inc. cbn [denote_item]. reflexivity.
+    + intros k Hk. rewrite e_mem_inc in Hk. cbn [named_item]. apply orb_true_iff in Hk. tauto.
+  - assert (Ech : ch = LP /\ tl = render b ++ [RP] ++ opt_text cn).
+    { rewrite render_item_Gr in Hr. cbn [app] in Hr. inversion Hr. split; reflexivity. }
+    destruct Ech as [-> ->].
+    destruct Hstart as [[Hup _]|[_ [Hst [Hgs Hps]]]]; [discriminate|].
+    pose proof Hwf as Hwf'. rewrite wf_item_Gr in Hwf'. apply andb_true_iff in Hwf'. destruct Hwf' as [Hwf' Hb].
+    apply andb_true_iff in Hwf'. destruct Hwf' as [Hcn Hne].
+    destruct (Hrc b) as [g [Hg [Hnd [Hget Hmem]]]].
+    { unfold wf. rewrite Hne, Hb. reflexivity. }
+    { subst s. rewrite render_item_Gr. rewrite !app_length. cbn [List.length]. lia. }
+    destruct (scan_Gr s pre b cn rest c acc g Hs Hwf Hst Hgs Hps Hiso Hg) as [cP [H1 H2]].
+    exists cP, (fun a => e_add a (e_mul g (cnt_val cn))). split; [exact H1|]. split; [exact H2|].
+    intros a Ha. split; [apply nd_add; assumption|]. split.
+    + intro k. rewrite e_get_add, tot_mul, <- (e_get_tot k g Hnd), Hget, denote_item_Gr. lia.
+    + intros k Hk. rewrite e_mem_add, e_mem_mul in Hk. rewrite named_item_Gr. apply orb_true_iff in Hk.
+      destruct Hk as [Hk|Hk]; [left; assumption|right; apply Hmem; assumption].
+Qed.
+
+Lemma list_scan : forall s, Hrec s -> forall f' it pre ch tl c acc,
+  s = pre ++ render (it :: f') -> forallb wfi (it :: f') = true -> render_item it = ch :: tl ->
+  Started c (blen pre) ch -> nd acc ->
+  exists acc', runR s acc c (indices (tl ++ render f') (blen pre + width ch)) = FOk acc'
+    /\ nd acc' /\ (forall k, e_get k acc' = e_get k acc + denote (it :: f') k)%Z
+    /\ (forall k, e_mem k acc' = true -> e_mem k acc = true \/ named (it :: f') k = true).
+Proof.
+  intros s Hrc. induction f' as [|it' f'' IH]; intros it pre ch tl c acc Hs Hwf Hr Hstart Hnd;
+    cbn [forallb] in Hwf; apply andb_true_iff in Hwf; destruct Hwf as [Hw1 Hw2].
+  - rewrite render_cons in Hs.
+    destruct (item_scan s pre it (render []) ch tl c acc Hs Hw1 Hr Hstart Hrc) as [cP [F [H1 [H2 H3]]]].
+    change (render []) with (@nil char) in *. rewrite app_nil_r in *.
+    rewrite <- (app_nil_r (indices tl _)). rewrite (run_steps _ _ _ _ _ _ _ H1). cbn [run].
+    destruct (H2 acc) as [_ Hfin]. rewrite Hfin by (subst s; blen_tac).
+    destruct (H3 acc Hnd) as [R1 [R2 R3]].
+    exists (F acc). split; [reflexivity|]. split; [assumption|]. split.
+    + intro k. rewrite R2, denote_cons. cbn [denote fold_right]. lia.
+    + intros k Hk. rewrite named_cons. destruct (R3 k Hk) as [E|E]; [left; assumption|right; rewrite E; reflexivity].
+  - rewrite render_cons in Hs.
+    destruct (item_scan s pre it (render (it' :: f'')) ch tl c acc Hs Hw1 Hr Hstart Hrc) as [cP [F [H1 [H2 H3]]]].
+    pose proof Hw2 as Hw2'. cbn [forallb] in Hw2'. apply andb_true_iff in Hw2'. destruct Hw2' as [Hw21 _].
+    destruct (wf_head it' Hw21) as [ch' [tl' [Hr' Hch']]].
+    rewrite (render_cons it' f''), Hr'. cbn [app]. rewrite indices_app.
+    rewrite (run_steps _ _ _ _ _ _ _ H1). cbn [indices run].
+    destruct (H2 acc) as [Hstep _]. 
+    replace (blen pre + width ch + blen tl) with (blen pre + blen (render_item it)) by (rewrite Hr; blen_tac).
+    destruct (Hstep ch' Hch') as [c' [Hs1 Hs2]]. rewrite Hs1. cbn [bind]. cbv beta iota.
+    destruct (H3 acc Hnd) as [R1 [R2 R3]].
+    replace (blen pre + blen (render_item it)) with (blen (pre ++ render_item it)) in * by blen_tac.
+    destruct (IH it' (pre ++ render_item it) ch' tl' c' (F acc)) as [acc' [I1 [I2 [I3 I4]]]]; try assumption.
+    { subst s. rewrite <- app_assoc. reflexivity. }
+    exists acc'. split; [exact I1|]. split; [assumption|]. split.
+    + intro k. rewrite I3, R2. rewrite (denote_cons it). lia.
+    + intros k Hk. rewrite (named_cons it). destruct (I4 k Hk) as [E|E].
+      * destruct (R3 k E) as [E'|E']; [left; assumption|right; rewrite E'; reflexivity].
+      * right. rewrite E. apply orb_true_r.
+Qed.
+End WithRec.
+
+Lemma parse_fuel : forall fuel f, wff f = true -> List.length (render f) < fuel ->
+  exists g, parse uni_numeric has_elem has_iso fuel (render f) = FOk g /\ Good f g.
+Proof.
+  induction fuel as [|fuel IH]; intros f Hwf Hlen; [lia|].
+  cbn [parse].
+  pose proof Hwf as Hwf0. unfold wf in Hwf. apply andb_true_iff in Hwf. destruct Hwf as [Hne Hall].
+  destruct f as [|it f']; [discriminate|].
+  pose proof Hall as Hall'. cbn [forallb] in Hall'. apply andb_true_iff in Hall'. destruct Hall' as [Hw1 _].
+  destruct (wf_head it Hw1) as [ch [tl [Hr Hch]]].
+  assert (Hrc : Hrec (parse uni_numeric has_elem has_iso fuel) (render (it :: f'))).
+  { intros b Hb Hl. apply IH; [assumption|lia]. }
+  set (s := render (it :: f')) in *.
+  assert (Es : s = [] ++ render (it :: f')) by reflexivity.
+  assert (Hinit : exists c, step uni_numeric has_elem has_iso (parse uni_numeric has_elem has_iso fuel) s [] cfg0 0 ch = FOk ([], c)
+                            /\ Started c (blen []) ch).
+  { unfold step. cbn [fstate cfg0]. destruct Hch as [Hu| ->].
+    - rewrite Hu. eexists. split; [reflexivity|]. unfold Started. proj. split; [reflexivity|]. left. auto.
+    - change (is_upper LP) with false. change ((LP =? LP)%N) with true. cbv iota.
+      eexists. split; [reflexivity|]. unfold Started. proj. split; [reflexivity|]. right. auto. }
+  destruct Hinit as [c [Hc1 Hc2]].
+  destruct (list_scan _ s Hrc f' it [] ch tl c [] Es Hall Hr Hc2 I) as [acc' [I1 [I2 [I3 I4]]]].
+  exists acc'. split.
+  - unfold s at 2. rewrite render_cons, Hr. cbn [app indices run]. rewrite Hc1. cbn [bind]. cbv beta iota.
+    cbn [blen] in I1. exact I1.
+  - split; [assumption|]. split.
+    + intro k. rewrite I3. cbn [e_get]. lia.
+    + intros k Hk. destruct (I4 k Hk) as [E|E]; [discriminate|assumption].
+Qed.
+
+End FC.
+
+Theorem parse_complete : forall uni_numeric has_elem has_iso f,
+  wf uni_numeric has_elem has_iso false f = true ->
+  exists c, parse_formula uni_numeric has_elem has_iso (render f) = FOk c
+            /\ (forall k, e_get k c = denote f k)
+            /\ (forall k, e_mem k c = true -> named f k = true).
+Proof.
+  intros un he hi f Hwf. unfold parse_formula.
+  destruct (parse_fuel un he hi (S (List.length (render f))) f Hwf (Nat.lt_succ_diag_r _)) as [g [H1 [_ [H2 H3]]]].
+  exists g. split; [exact H1|]. split; assumption.
+Qed.
